@@ -78,8 +78,9 @@ class Distogram:  # pragma: no cover
     def __add__(self, operand):  # pragma: no cover
         dgram = merge(self, operand)
         # merge estimates min and max, so set them manually
-        dgram.min = min(self.min, operand.min)
-        dgram.max = max(self.max, operand.max)
+        if operand.min is not None:  # an empty operand has no bounds to contribute
+            dgram.min = min(self.min, operand.min)
+            dgram.max = max(self.max, operand.max)
         return dgram
 
     def bulkload(self, values):
